@@ -427,11 +427,15 @@ def gen_ops(g, w, n, weights):
             ops.append(["eval", c["cid"], g.key(c), r.choice(SPELLINGS)])
         elif k == "setv":
             cands = [x for x in cur.values() if cached_state[x["cid"]]]
+            if r.random() < 0.1:
+                cands = list(cur.values())         # also uncached cells: the assignment is refused, nothing changes
             if not cands:
                 continue
             c = r.choice(cands)
             v = None if (c["allow_none"] and r.random() < 0.15) else g.val()
             ops.append(["setv", c["cid"], g.key(c), v])
+            if c["nparams"] == 0 and r.random() < 0.5:
+                ops[-1].append("attr")             # spelled space.<cells name> = v
         elif k == "clearat":
             ops.append(["clearat", c["cid"], g.key(c)])
         elif k == "clear":
@@ -476,6 +480,42 @@ def gen_ops(g, w, n, weights):
                 cur[u["cid"]] = nu
                 ops.append(["setf", u["cid"], nu, "direct"])
                 ops.append(["eval", d["cid"], kd, r.choice(SPELLINGS)])
+        elif k == "scn_unc2":
+            # directed scenario (seeded/C09_r4): total (cached) -> pv (cached) -> disc (UNCACHED) -> rate (cached, HELD);
+            # total is read first (pv not held yet), so the held rate is read by the uncached disc with TWO cached
+            # frames below it: the dependency belongs to the NEAREST cached caller (pv).  Then rate is overwritten /
+            # redefined and pv, total are read again
+            cands = sorted([x for x in cur.values() if not x.get("derived")], key=lambda x: x["cid"])
+            if len(cands) < 4:
+                continue
+            a, b, u, l = r.sample(cands, 4) if r.random() < 0.3 else cands[:2] + cands[-2:]
+            a, b, u, l = sorted([a, b, u, l], key=lambda x: x["cid"])
+            for x, flag in ((a, True), (b, True), (u, False), (l, True)):
+                if cached_state[x["cid"]] != flag:
+                    cached_state[x["cid"]] = flag
+                    nx_ = dict(cur[x["cid"]]); nx_["cached"] = flag; cur[x["cid"]] = nx_
+                    ops.append(["setcached", x["cid"], flag])
+            a, b, u, l = (cur[x["cid"]] for x in (a, b, u, l))
+            ka, kb, ku, kl = g.key(a), g.key(b), g.key(u), g.key(l)
+
+            def redefine(x, body):
+                nx_ = dict(cur[x["cid"]]); nx_["body"] = body; cur[x["cid"]] = nx_
+                ops.append(["setf", x["cid"], nx_, "direct"])
+            call = lambda x, kx: ["call", x["cid"], [["const", v] for v in kx]]
+            redefine(l, [["assign", ["const", r.randint(10, 40)]]])
+            redefine(u, [["assign", ["bin", "add", call(l, kl), ["const", r.randint(1, 9)]]]])
+            redefine(b, [["assign", ["bin", "add", call(u, ku), ["const", r.randint(1, 9)]]]])
+            redefine(a, [["assign", ["bin", "add", call(b, kb), ["const", r.randint(1, 9)]]]])
+            ops.append(["eval", l["cid"], kl, r.choice(SPELLINGS)])
+            ops.append(["eval", a["cid"], ka, r.choice(SPELLINGS)])
+            for _ in range(r.randint(1, 2)):
+                if r.random() < 0.5:
+                    ops.append(["setv", l["cid"], kl, r.randint(50, 90)])
+                else:
+                    redefine(l, [["assign", ["const", r.randint(50, 90)]]])
+                    ops.append(["eval", l["cid"], kl, "call"])
+                for x, kx in r.sample([(b, kb), (a, ka), (u, ku)], 3):
+                    ops.append(["eval", x["cid"], kx, r.choice(SPELLINGS)])
         elif k == "scn_recalc":
             # directed scenario (seeded/C06_r2): with the recalculation option on, an assignment whose immediate
             # recomputation of a dependent FAILS; the assigned value must still be an input afterwards (survive
